@@ -4,7 +4,7 @@ from .c05 import rand_tree
 from .c09 import classify_tree, small_trees
 
 VALUE_OPS = ["splitUniform", "splitNonUniform", "splitEqual", "splitUnEqual", "fiberSplitUniform", "truediv", "floordiv", "swizzle", "swap", "flatten", "fiberFlatten",
-             "merge", "updateCoords", "updatePayloads", "add", "mul", "addscalar", "mulscalar", "copy", "deepcopy", "fiberDeepcopy", "fromFiberOwned", "swizzlePartial", "unflatten", "fiberUnflatten", "rawDeepcopy", "rawCopy"]
+             "merge", "updateCoords", "updatePayloads", "add", "mul", "addscalar", "mulscalar", "copy", "deepcopy", "fiberDeepcopy", "fromFiberOwned", "swizzlePartial", "unflatten", "fiberUnflatten", "rawDeepcopy", "rawCopy", "prune", "project", "getRange"]
 OBSERVERS = ["getPayload", "iterate", "coiterate", "compare", "queries", "print", "dump", "uncompress", "footprint", "renderTree", "renderUncompressed", "renderTensor", "renderTreeHL", "renderUncompressedHL", "renderTensorHL"]
 
 
